@@ -401,8 +401,9 @@ func Read(r io.Reader) (*Font, error) {
 		info.UnderlinePosition = funit.Float64(postInfo.UnderlinePosition)
 		info.UnderlineThickness = funit.Float64(postInfo.UnderlineThickness)
 	} else if fontInfo != nil {
-		info.UnderlinePosition = fontInfo.UnderlinePosition
-		info.UnderlineThickness = fontInfo.UnderlineThickness
+		// The "post" table written for this font holds whole units only.
+		info.UnderlinePosition = funit.Float64(math.Round(float64(fontInfo.UnderlinePosition)))
+		info.UnderlineThickness = funit.Float64(math.Round(float64(fontInfo.UnderlineThickness)))
 	}
 
 	// Currently we set IsItalic if there is any evidence of the font being
